@@ -169,6 +169,9 @@ def r4(tree, rep, tier):
                 rep.violation("C09.R4", "C09.R4:tx-before-bind:%s" % v["detail"],
                               "message `%s` is sent on a connection before `bind`" % v["detail"], v["site"],
                               detail=" > ".join(v["stack"]), trace=v["path"])
+            if v["kind"] == "tx-protocol":
+                rep.violation("C09.R4", "C09.R4:tx-protocol:%s" % v["detail"][:60], v["detail"], v["site"],
+                              detail=" > ".join(v["stack"]), trace=v["path"])
             if v["kind"] == "reconnect-abandoned":
                 rep.violation("C09.R4", "C09.R4:reconnect-abandoned", v["detail"], v["site"],
                               detail=" > ".join(v["stack"]), trace=v["path"])
@@ -219,6 +222,8 @@ def r5_rows(prog, rep):
 
 
 def run(tree, rep, tier):
+    from .. import sharedstate
+    sharedstate.check(tree, rep, "C09.R0")
     prog = Program(tree)
     r1_r2(prog, rep)
     r3(tree, prog, rep)
